@@ -355,4 +355,26 @@ CHECKS = {
         'technique': 'Coq proof (disjointness of consecutively consumed stream blocks) + primitive-stream replay + '
                      'determinism / advancement checks on every entry point',
     },
+    'C19': {
+        'text': 'Machine-checked proof (Properties/C19.v, axiom-free) about the three pieces of state that evaluation '
+                'paths write to: (1) the value buffer of Reduced* wrappers — after any sequence of evaluations the next '
+                'evaluation hands the wrapped object the same vector and names / counts are unchanged; (2) the '
+                'sensitivity switch of a log-likelihood — every entry point runs with the setting it needs whatever ran '
+                'before; (3) the solver object — after the calls of simulate(), preceded by ANY earlier calls, every '
+                'published parameter is bound to this call\'s entry and this call\'s outputs are logged at this call\'s '
+                'times. Tied to /repo on every run: random interleavings of all evaluation entry points (value, pointwise, '
+                'sensitivities, seeded sampling, at the same and at other inputs) on error and population models, '
+                'log-likelihoods and posteriors (plain, fixed, hierarchical, filter), SBML models behind the solver '
+                'substitute, predictive models and the problem controller, each result bit-identical to the same call on '
+                'a freshly built object; earlier results and all inputs (arrays, data frames) unchanged; user models '
+                'reconfigured half-way without effect on objects built from them; forked pints.ParallelEvaluator equals '
+                'sequential evaluation; recorded solver calls of repeated simulations compared exactly (vm_compute) with '
+                'the model applied after the whole earlier call history.',
+        'note': 'Partial: the theorems cover the state the model names; that chi writes to nothing else, mutates no input '
+                'and behaves identically in a forked worker is established by the correspondence checks on the explored '
+                'interleavings only. Sensitivities returned together with a -inf score are unspecified (uninitialised '
+                'arrays) and are not compared. Trusted: Coq kernel, stdlib (no axioms); harness/simsub.py.',
+        'technique': 'Coq proof (buffer overwrite lemma, history-independence of the solver binding) + interleaving '
+                     'differential checks against freshly built objects',
+    },
 }
